@@ -252,8 +252,7 @@ Definition ch_getPublicPtr (m : option clientHelloMsg) : option PubClientHelloMs
    pair name, public struct fields in declaration order, private struct fields in declaration order,
    (public field, private field) for every field the conversions copy, in either direction. *)
 Record pair_info := { pi_pub : list string; pi_priv : list string; pi_copied : list (string * string) }.
-Open Scope string_scope.
-Definition same (l : list (string * string)) := l.
+Local Open Scope string_scope.
 Definition info_ClientHello : pair_info := {|
   pi_pub := ["Raw";"Vers";"Random";"SessionId";"CipherSuites";"CompressionMethods";"NextProtoNeg";"ServerName";"OcspStapling";
     "Scts";"Ems";"SupportedCurves";"SupportedPoints";"TicketSupported";"SessionTicket";"SupportedSignatureAlgorithms";
